@@ -188,6 +188,15 @@ func (sc *FaultScenario) setup() {
 		w.Advance(prec + time.Second)
 		w.ExternalRotate(part, sc.State == "ext-rotated-sk")
 		w.Advance(pol.RevokeCheckInterval + time.Second)
+	case "legacy-unsuffixed":
+		// the metastore already holds this partition's keys as a deployment without a region suffix wrote them
+		// (same service, product and partition): they are other keys, with other ids, than the ones this process names
+		none := ""
+		w.ExtSuffix = &none
+		w.ExternalRotate(part, true)
+		w.ExtSuffix = nil
+		w.Advance(prec + time.Second)
+		sc.Sess = w.Open(p, part)
 	default:
 		w.T.Fatalf("unknown key state %q", sc.State)
 	}
